@@ -19,6 +19,7 @@ class Lower(object):
         self.dom = []       # (kind, z3 formula that must hold for the real op to be defined, node)
         self.atoms = []     # (kind/name, z3 arg(s), z3 result, node)
         self.nodes = {}
+        self.side_of = {}   # node key -> constraints contributed while lowering that node
 
     def __call__(self, e):
         k = id(e)
@@ -43,7 +44,10 @@ class Lower(object):
                             if isinstance(b, E) and id(b) not in memo:
                                 stack.append((b, False))
                 continue
+            n0 = len(self.side)
             memo[id(n)] = self._one(n)
+            if len(self.side) > n0:
+                self.side_of[n.key] = self.side[n0:]
             self.nodes[id(n)] = n
         return memo[k]
 
@@ -102,11 +106,11 @@ class Lower(object):
                 self.side += [r >= _rv(gv - d), r <= _rv(gv + d)]
             if name == "exp":
                 self.side += [r > 0, z3.Implies(a <= 0, r <= 1), z3.Implies(a >= 0, r >= 1),
-                              z3.Implies(a == 0, r == 1)]
+                              z3.Implies(a == 0, r == 1), z3.Implies(a > 0, r > 1), z3.Implies(a < 0, r < 1), r >= 1 + a]
             elif name == "log":
                 self.dom.append(("log<=0", a > 0, e))
                 self.side += [z3.Implies(a >= 1, r >= 0), z3.Implies(a <= 1, r <= 0),
-                              z3.Implies(a == 1, r == 0)]
+                              z3.Implies(a == 1, r == 0), z3.Implies(a > 1, r > 0), z3.Implies(a < 1, r < 0), r <= a - 1]
             elif name in ("tanh", "erf"):
                 self.side += [r > -1, r < 1, z3.Implies(a >= 0, r >= 0), z3.Implies(a <= 0, r <= 0)]
             elif name in ("sin", "cos"):
